@@ -117,7 +117,7 @@ def hot_lines(files):
         _HOT_RE = re.compile(r"self\.(clear|resendfrom|lineno|printing|online|sentlines|queueindex|priqueue|"
                              r"paused|mainqueue|stop_read_thread|stop_send_thread|print_thread|send_thread|"
                              r"_ack_event|_online_event|_device_error|_read_buffer|_current_params|"
-                             r"_reported_params|_is_connected|writefailures)\b")
+                             r"_reported_params|_is_connected|writefailures|layer_idxs|line_idxs|append_layer|all_layers)\b")
     out = set()
     for f in files:
         if f not in _hot_cache:
